@@ -2,10 +2,14 @@ from vv.core import harness, fuzz_target, REPO
 from vv.registry import PROPS, COMMON_ASSUME, rc, fz
 
 harness("h_c08", ["harness/h_c08.cc"], libs=("csg",))
+fuzz_target("fz_c08_table", ["fuzz/fz_c08_table.cc", f"{REPO}/tools/src/libtools/table.cc", f"{REPO}/tools/src/libtools/tokenizer.cc",
+                             f"{REPO}/tools/src/libtools/rangeparser.cc", f"{REPO}/csg/src/libcsg/imcio.cc"])
 
 PROPS["C08"] = dict(
-    parts=[rc("h_c08", quick=dict(cases=6000, procs=8, budget_s=600),
-              thorough=dict(cases=400000, procs=16, budget_s=1500))],
+    parts=[rc("h_c08", quick=dict(cases=8000, procs=8, budget_s=600),
+              thorough=dict(cases=400000, procs=16, budget_s=1500)),
+           fz("fz_c08_table", quick=dict(runs=200000, procs=2, max_len=160, budget_s=300),
+              thorough=dict(runs=8000000, procs=8, max_len=256, budget_s=1200))],
     rule=("gro|pdb|xyz|dump|dlph|dlpc: generated topology (1..200 spherical beads, 1..6 residues, 1..4 types, names of 1..5 printable "
           "characters) and 1..5 frames (dlpc: 1) with step>=1, time=step*dt, positions/velocities/forces on a decimal lattice two digits finer "
           "than the format prints (or full double precision for the general-notation formats), magnitudes inside the format's field width "
@@ -24,7 +28,10 @@ PROPS["C08"] = dict(
           "imc_matrix: imcio_write_matrix->imcio_read_matrix for m x n (1..12), 9-digit entries over 16 decades, optional sub-selection "
           "list; shape and entries to 8 significant digits; non-trivial = not symmetric and both dimensions > 1. "
           "imc_index: imcio_write_index->imcio_read_index, 1..8 groups, 1..3 blocks with strides; names and enumerated indices equal; "
-          "non-trivial = >=2 groups."),
+          "non-trivial = >=2 groups. "
+          "fz_c08_table: libFuzzer bytes -> Table operator>> / imcio_read_matrix / imcio_read_index (byte 0 selects); an input is rejected "
+          "by an exception or the accepted object survives print->parse (shape, values to the printed digits, flags, names, ranges); "
+          "non-trivial = table with >=2 rows and a flag other than i / matrix that is neither symmetric nor a vector / index with >=2 groups."),
     assumptions=COMMON_ASSUME + [
         "lammps dump is exercised with orthorhombic/open boxes only (VOTCA's reader rejects the triclinic header, the writer never emits it)",
         "pdb carries no box (PDBWriter::Write emits no CRYST1 record); xyz carries positions and 3 characters of the name only",
@@ -32,6 +39,7 @@ PROPS["C08"] = dict(
         "dl_poly cannot store forces without velocities (keytrj); such frames are compared on positions only",
         "gro box entries stay above -100 nm so that the free-format '%10.5f' box line keeps its separating blanks",
         "xml topology files have no writer in VOTCA, so no round trip is defined for them",
+        "fuzz target: tables/matrices holding nan, inf, |v|>=1e300 or 0<|v|<=1e-300 are only required not to crash (decimal printing at the overflow/denormal edge is not idempotent by nature)",
         "a reader that answers an atom-count mismatch by returning false instead of throwing would be reported (only exceptions count as 'reports an error')",
     ],
 )
